@@ -20,8 +20,8 @@ type (
 	VerifMsgUserEvent     = messageUserEvent
 	VerifMsgQuery         = messageQuery
 	VerifMsgQueryResponse = messageQueryResponse
-	VerifUserEvents       = userEvents
-	VerifUserEvent        = userEvent
+	VerifMsgUserEvents    = userEvents
+	VerifMsgUserEventItem = userEvent
 	VerifRelayHeader      = relayHeader
 	VerifFilterNode       = filterNode
 	VerifFilterTag        = filterTag
